@@ -12,7 +12,7 @@ if [ ! -d $WT ]; then
 fi
 export SRC=$WT LIB=$WT/_b/libIPhreeqcrwd.a
 rundemo() { # dir -> exit code
-  local d=$1; local t=/var/tmp/seeddemo_$d; rm -rf $t; mkdir -p $t; cp /verif/seeded/$d/* $t/; (cd $t && timeout 600 bash -c "$(grep -v '^#' RUN.txt | head -1)" >$t/demo.out 2>&1); local rc=$?; echo $rc; }
+  local d=$1; local t=/var/tmp/seeddemo_$d; rm -rf $t; mkdir -p $t; cp /verif/seeded/$d/* $t/; mkdir -p $WT/out; ln -sfn $t $WT/out/${d##*_}; mkdir -p $t/out; ln -sfn $t $t/out/${d##*_}; (cd $t && timeout 600 bash -c "$(grep -v '^#' RUN.txt | head -1)" >$t/demo.out 2>&1); local rc=$?; echo $rc; }
 git -C $WT checkout -q -- . ; git -C $WT reset -q --hard $(git -C /repo rev-parse HEAD); (cd $WT && cmake --build _b -j14 >/dev/null 2>&1)
 for d in $SEEDS; do
   d=${d%/}
